@@ -67,6 +67,7 @@ def run_history(ctor, ops, warm=(), probe=None):
     except Exception as e:  # noqa
         return "ctor-err " + err_name(e)
     outs = []
+    last_qrdata = None
     for op in ops:
         t = op.split("~")
         try:
@@ -77,7 +78,29 @@ def run_history(ctor, ops, warm=(), probe=None):
             elif k == "addseg":
                 m, d = t[1].split(":")
                 d = bytes(int(x) for x in d.split(",")) if d != "-" else b""
-                q.add_data(util.QRData(d, mode=int(m), check_data=False)); o = "u"
+                last_qrdata = util.QRData(d, mode=int(m), check_data=False)
+                q.add_data(last_qrdata); o = "u"
+            elif k == "addsame":
+                # the same QRData OBJECT once more (legal; the model has no object identity: the driver sees a second addseg)
+                if last_qrdata is None:
+                    last_qrdata = util.QRData(b"7", mode=1, check_data=False)
+                q.add_data(last_qrdata); o = "u"
+            elif k == "shortcut":
+                # qrcode.make(data): another symbol of this process, through the module-level shortcut; compared with a fresh object
+                d = bytes(int(x) for x in t[1].split(",")) if t[1] != "-" else b""
+                segs = []
+                if t[2] != "-":
+                    for s in t[2].split(";"):
+                        mm, dd = s.split(":")
+                        segs.append((int(mm), bytes(int(x) for x in dd.split(",")) if dd != "-" else b""))
+                try:
+                    im = qrcode.make(d)             # no keyword arguments at all: the plain shortcut
+                    res = ("ok", (len(im.modules) - 17) // 4, [list(r) for r in im.modules])
+                except Exception as e:  # noqa
+                    res = ("err", err_name(e))
+                if probe is not None:
+                    probe((None, 0, None, segs), True, res, len(outs))
+                o = "u"
             elif k == "clear":
                 q.clear(); o = "u"
             elif k == "make":
@@ -142,6 +165,30 @@ def run_history(ctor, ops, warm=(), probe=None):
     return "ok " + ("|".join(outs)) + " " + st + " " + g
 
 
+def driver_ops(ops):
+    """the operations as the model sees them: `addsame` = the last explicit segment again (a fixed one if there was none),
+    `shortcut~data~segs` = another object (no version, level M, automatic mask, fitting on) compiling these segments"""
+    out, last = [], "addseg~1:55"
+    for op in ops:
+        if op.startswith("addseg~"):
+            last = op
+        if op == "addsame":
+            out.append(last)
+        elif op.startswith("shortcut~"):
+            out.append("other~0~0~-~1~" + op.split("~")[2])
+        else:
+            out.append(op)
+    return out
+
+
+def shortcut_op(data):
+    """`shortcut~bytes~segments` for qrcode.make(data): the segments are what add_data's default threshold yields"""
+    import qrcode
+    ref = qrcode.QRCode(); ref.add_data(data)
+    segs = ";".join(f"{s.mode}:{','.join(str(b) for b in s.data) or '-'}" for s in ref.data_list) or "-"
+    return "shortcut~{}~{}".format(",".join(str(b) for b in data) or "-", segs)
+
+
 def request(ctor, ops, warm=()):
     c = ",".join(fmt_opt_int(x) for x in ctor)
-    return "obj {} {} {}".format(c, "|".join(ops) or "-", ",".join(map(str, warm)) or "-")
+    return "obj {} {} {}".format(c, "|".join(driver_ops(ops)) or "-", ",".join(map(str, warm)) or "-")
